@@ -438,6 +438,27 @@ func broadMembers(tier string, cfg gen.Config) []member {
 	out = append(out, addPropsMembers(tier, cfg)...)
 	out = append(out, anyOfMembers(tier, cfg)...)
 	out = append(out, allOfMembers(cfg)...)
+	out = append(out, reservedNameMembers(cfg)...)
+	return out
+}
+
+// reservedNameMembers: concrete names that coincide with identifiers the emitted code uses for itself (the shadow type
+// `Plain`, the collector field `AdditionalProperties`, the local `raw`/`plain`/`value`).
+func reservedNameMembers(cfg gen.Config) []member {
+	var out []member
+	t := cfg
+	t.StructNameFromTitle = true
+	str := func(kws ...string) *fam.Spec { return &fam.Spec{Kind: "string", Kw: kws} }
+	for _, title := range []string{"plain", "Plain", "raw", "value"} {
+		out = append(out, member{name: "root type named by the title " + title, cfg: t, root: &fam.Spec{Kind: "object", Title: true, ConcreteTitle: title,
+			Props: []*fam.Prop{{Label: "s", Spec: str("minLength"), Required: true}, {Label: "n", Spec: &fam.Spec{Kind: "integer", Kw: []string{"maximum"}}}}}})
+	}
+	for _, name := range []string{"additional_properties", "additionalProperties", "plain", "raw", "value"} {
+		out = append(out, member{name: "property named " + name, cfg: cfg, root: &fam.Spec{Kind: "object",
+			Props: []*fam.Prop{{Label: "r", Concrete: name, Spec: str("maxLength")}, {Label: "s", Spec: str("minLength"), Required: true}}}})
+		out = append(out, member{name: "property named " + name + " next to additionalProperties", cfg: cfg, root: &fam.Spec{Kind: "object", AddProps: "string",
+			Props: []*fam.Prop{{Label: "r", Concrete: name, Spec: str("maxLength")}, {Label: "s", Spec: str("minLength"), Required: true}}}})
+	}
 	return out
 }
 
